@@ -480,6 +480,7 @@ func wsMsgDriver(a *Args) {
 }
 
 func pollOnce(shim *shimClient, sid string, sent map[int]wsMsg, polled int) int {
+	hx.Emit("PollBegin", "sid", sid)
 	code, body := shim.call("poll", fmt.Sprintf(`{"id":%q}`, sid), "1")
 	if code != 200 {
 		hx.Emit("Call", "kind", "poll", "arg", "valid", "sid", sid, "status", code)
@@ -676,7 +677,7 @@ func wsCallsDriver(a *Args) {
 		res.Case(strings.Join(seq, ","), map[string]interface{}{"sequence": seq})
 	}
 	// gated concurrent pairs in a child process (a panic in a connection goroutine kills the process)
-	for _, pair := range []string{"shapes", "data-vs-close", "close-vs-close", "stress"} {
+	for _, pair := range []string{"shapes", "data-vs-close", "close-vs-close", "poll-gated", "poll-vs-poll", "stress"} {
 		rounds := 1
 		if pair == "stress" && hx.Thorough() {
 			rounds = 5
@@ -743,6 +744,193 @@ func wsRaceChild() {
 	case "shapes":
 		wsShapes(be)
 		return
+	case "poll-gated":
+		// the counterexample of WsShim_Attack_DrainByCount, forced with the gate between a poll's first
+		// receive and its drain: two polls each take one message of a burst of eight and are held; then
+		// both drain the rest at the same moment; then the backend closes
+		for round := 0; round < 40; round++ {
+			label := fmt.Sprintf("pg%d", round)
+			sid, st := shim.open(be, label, "1")
+			if st != 200 {
+				fmt.Println("open failed")
+				os.Exit(6)
+			}
+			var pmu sync.Mutex
+			arrived := 0
+			both := make(chan struct{})
+			release := make(chan struct{})
+			verifhook.GateFunc = func(point string, kv ...interface{}) {
+				if point != "ws.poll.first" {
+					return
+				}
+				pmu.Lock()
+				arrived++
+				if arrived == 2 {
+					close(both)
+				}
+				pmu.Unlock()
+				select {
+				case <-release:
+				case <-time.After(10 * time.Second):
+				}
+			}
+			type ans struct {
+				code int
+				body []byte
+			}
+			ch := make(chan ans, 2)
+			for p := 0; p < 2; p++ {
+				go func() {
+					c, b := shim.call("poll", fmt.Sprintf(`{"id":%q}`, sid), "1")
+					ch <- ans{c, b}
+				}()
+			}
+			time.Sleep(20 * time.Millisecond)
+			const gburst = 8
+			for n := 1; n <= gburst; n++ {
+				be.send(label, n, wsMsg{websocket.TextMessage, []byte(fmt.Sprintf("%d:g-%s", n, label))})
+			}
+			select {
+			case <-both:
+			case <-time.After(5 * time.Second):
+				fmt.Println("the two polls did not both reach the gate")
+				os.Exit(6)
+			}
+			time.Sleep(20 * time.Millisecond) // the rest of the burst is queued by now
+			close(release)
+			time.Sleep(20 * time.Millisecond)
+			be.closeConn(label)
+			seen := map[string]int{}
+			for p := 0; p < 2; p++ {
+				select {
+				case a := <-ch:
+					if a.code != 200 {
+						fmt.Printf("gated poll answered %d\n", a.code)
+						os.Exit(5)
+					}
+					msgs, _ := decodePoll(a.body)
+					for _, m := range msgs {
+						seen[string(m.payload)]++
+					}
+				case <-time.After(26 * time.Second):
+					fmt.Println("gated poll wedged (no answer within 26 s)")
+					os.Exit(3)
+				}
+			}
+			verifhook.GateFunc = nil
+			for n := 1; n <= gburst; n++ {
+				if c := seen[fmt.Sprintf("%d:g-%s", n, label)]; c != 1 {
+					fmt.Printf("gated polls: message %d delivered %d times\n", n, c)
+					os.Exit(5)
+				}
+			}
+		}
+	case "poll-vs-poll":
+		// several polls in flight on the same session while the backend sends a burst and closes: every
+		// poll is answered, and together the polls deliver every message exactly once. Eight sessions at
+		// a time, so that goroutines really run in parallel.
+		nsess := 480
+		if hx.Thorough() {
+			nsess = 4000
+		}
+		var failMu sync.Mutex
+		failCode, failMsg := 0, ""
+		fail := func(code int, format string, a ...interface{}) {
+			failMu.Lock()
+			if failCode == 0 {
+				failCode, failMsg = code, fmt.Sprintf(format, a...)
+			}
+			failMu.Unlock()
+		}
+		oneSession := func(s int) {
+			label := fmt.Sprintf("pp%d", s)
+			sid, st := shim.open(be, label, "1")
+			if st != 200 {
+				return
+			}
+			const burst = 10
+			pollers := 2 + s%3
+			var mu sync.Mutex
+			seen := map[string]int{}
+			var wg sync.WaitGroup
+			for p := 0; p < pollers; p++ {
+				wg.Add(1)
+				go func() {
+					defer wg.Done()
+					for i := 0; i < 40; i++ {
+						type ans struct {
+							code int
+							body []byte
+						}
+						ch := make(chan ans, 1)
+						go func() {
+							c, b := shim.call("poll", fmt.Sprintf(`{"id":%q}`, sid), "1")
+							ch <- ans{c, b}
+						}()
+						var a ans
+						select {
+						case a = <-ch:
+						case <-time.After(26 * time.Second):
+							fail(3, "session %s: a poll call wedged (no answer within 26 s)", label)
+							return
+						}
+						if a.code != 200 {
+							if a.code == 400 {
+								return // session reported closed
+							}
+							continue
+						}
+						msgs, _ := decodePoll(a.body)
+						mu.Lock()
+						for _, m := range msgs {
+							seen[string(m.payload)]++
+						}
+						mu.Unlock()
+					}
+				}()
+			}
+			// the burst arrives before the polls, while they start, or when all of them are parked
+			time.Sleep(time.Duration(s%4) * 4 * time.Millisecond)
+			for n := 1; n <= burst; n++ {
+				be.send(label, n, wsMsg{websocket.TextMessage, []byte(fmt.Sprintf("%d:burst-%s", n, label))})
+			}
+			if s%2 == 1 {
+				time.Sleep(15 * time.Millisecond)
+			}
+			be.closeConn(label)
+			wg.Wait()
+			for n := 1; n <= burst; n++ {
+				if c := seen[fmt.Sprintf("%d:burst-%s", n, label)]; c != 1 {
+					shim.mu.Lock()
+					p := shim.panicked
+					shim.mu.Unlock()
+					fail(5, "session %s: message %d delivered %d times by %d concurrent polls (handler panicked: %v)", label, n, c, pollers, p)
+					return
+				}
+			}
+		}
+		sem := make(chan struct{}, 8)
+		var swg sync.WaitGroup
+		for s := 0; s < nsess; s++ {
+			failMu.Lock()
+			stop := failCode != 0
+			failMu.Unlock()
+			if stop {
+				break
+			}
+			sem <- struct{}{}
+			swg.Add(1)
+			go func(s int) {
+				defer swg.Done()
+				defer func() { <-sem }()
+				oneSession(s)
+			}(s)
+		}
+		swg.Wait()
+		if failCode != 0 {
+			fmt.Println(failMsg)
+			os.Exit(failCode)
+		}
 	case "data-vs-close":
 		sid, _ := shim.open(be, "r1", "1")
 		g := arm("ws.send.checked")
